@@ -43,9 +43,9 @@ theorem ok_implies_balanced (inst : Instance) (c : Client) (gid : Gid) (st : St)
     | none => simp only [hres] at h; cases h
     | some n =>
       simp only [hres] at h
-      cases hclip : inst.hasClip gid with
-      | false =>
-        simp only [hclip, Bool.false_eq_true, if_false] at h
+      cases hclip : inst.clip gid with
+      | none =>
+        simp only [hclip, pushClip, popClipIf] at h
         have hi := trav_inv inst c MAX_TRAVERSAL_DEPTH n [pid] St.init
         generalize trav inst c MAX_TRAVERSAL_DEPTH n [pid] St.init = r at h hi
         obtain ⟨new, s, k⟩ := hi
@@ -58,11 +58,11 @@ theorem ok_implies_balanced (inst : Instance) (c : Client) (gid : Gid) (st : St)
           have := s.evs
           simp only [St.init, List.nil_append] at this
           rw [this]; exact hn []
-      | true =>
-        simp only [hclip, if_true] at h
-        obtain ⟨na, sa, ha⟩ := emit_step c .pushClipBox St.init
-        have hi := trav_inv inst c MAX_TRAVERSAL_DEPTH n [pid] (emit c .pushClipBox St.init)
-        generalize trav inst c MAX_TRAVERSAL_DEPTH n [pid] (emit c .pushClipBox St.init) = r at h hi
+      | some bx =>
+        simp only [hclip, pushClip, popClipIf] at h
+        obtain ⟨na, sa, ha⟩ := emit_step c (.pushClipBox bx) St.init
+        have hi := trav_inv inst c MAX_TRAVERSAL_DEPTH n [pid] (emit c (.pushClipBox bx) St.init)
+        generalize trav inst c MAX_TRAVERSAL_DEPTH n [pid] (emit c (.pushClipBox bx) St.init) = r at h hi
         obtain ⟨new, s, k⟩ := hi
         cases hr : r.1 with
         | some e => simp only [hr] at h; cases h
@@ -78,12 +78,12 @@ theorem ok_implies_balanced (inst : Instance) (c : Client) (gid : Gid) (st : St)
           rw [ha e0, hb' e2] at hev
           simp only [St.init, List.nil_append, rootRecord] at hev
           rw [hev]
-          have := Neutral.bracketClipBox hn
+          have := Neutral.bracketClipBox bx hn
           exact this []
 
 /-- COLRv0 glyphs: the stream is well nested on success (it consists of `fill_glyph` calls, or of
 their default expansion `push_clip_glyph · fill · pop_clip`). -/
-theorem v0_ok_implies_balanced (c : Client) (layers : Nat → Option Gid) (first num : Nat) (st : St)
+theorem v0_ok_implies_balanced (c : Client) (layers : Nat → Option (Gid × Nat)) (first num : Nat) (st : St)
     (h : paintV0 c layers first num = (none, st)) : WellNested st.evs := by
   unfold paintV0 at h
   have key : ∀ (l : List Nat) (s0 s1 : St), s0.opts = [] → travV0 c layers l s0 = (none, s1) →
@@ -96,15 +96,15 @@ theorem v0_ok_implies_balanced (c : Client) (layers : Nat → Option Gid) (first
       simp only [travV0] at h
       split at h
       · cases h
-      · rename_i g hg
-        obtain ⟨na, sa, ha⟩ := emit_step c (.fillGlyph g false) s0
+      · rename_i g pal hg
+        obtain ⟨na, sa, ha⟩ := emit_step c (.fillGlyph g none (solidBrush pal 16384)) s0
         obtain ⟨nb, hb, hn⟩ := ih _ s1 ((Step.nil_iff sa).mpr h0) h
         refine ⟨na ++ nb, by rw [hb, sa.evs, List.append_assoc], ?_⟩
         rw [ha h0]
         refine Neutral.append ?_ hn
         simp only [rootRecord]; split
-        · exact Neutral.fillGlyph _ _
-        · exact Neutral.expand _ _
+        · exact Neutral.fillGlyph _ _ _
+        · exact Neutral.expand _ _ _
   obtain ⟨new, he, hn⟩ := key _ St.init st rfl h
   simp only [St.init, List.nil_append] at he
   rw [he]; exact hn []
@@ -136,8 +136,7 @@ private theorem paintV1_ok_trav {inst : Instance} {c : Client} {gid : Gid} {st :
     | none => simp only [hres] at h; cases h
     | some n =>
       simp only [hres] at h
-      refine ⟨pid, n, (if inst.hasClip gid = true then emit c Event.pushClipBox St.init else St.init),
-        rfl, hres, ?_⟩
+      refine ⟨pid, n, pushClip c (inst.clip gid) St.init, rfl, hres, ?_⟩
       split at h
       · cases h
       · rename_i hr; exact hr
@@ -210,8 +209,8 @@ theorem visit_bound (inst : Instance) (c : Client) (k : Nat) (hk : 2 ≤ k) (hl 
   | notFound => simp only [hb] at h; cases h
   | found pid =>
     simp only [hb, enter_nil] at h
-    have h0 : (if inst.hasClip gid = true then emit c Event.pushClipBox St.init else St.init).visits = 0 := by
-      split <;> rfl
+    have h0 : (pushClip c (inst.clip gid) St.init).visits = 0 := by
+      rw [pushClip_visits]; rfl
     cases hres : inst.resolve pid with
     | none =>
       simp only [hres] at h
@@ -221,14 +220,14 @@ theorem visit_bound (inst : Instance) (c : Client) (k : Nat) (hk : 2 ≤ k) (hl 
       have hn : NodeOK k n := by
         intro first num hn'; subst hn'; exact hl pid first num hres
       have hv := trav_visits inst c k hk hl MAX_TRAVERSAL_DEPTH n [pid]
-        (if inst.hasClip gid = true then emit c Event.pushClipBox St.init else St.init) hn
+        (pushClip c (inst.clip gid) St.init) hn
       rw [h0] at hv
       generalize trav inst c MAX_TRAVERSAL_DEPTH n [pid]
-        (if inst.hasClip gid = true then emit c Event.pushClipBox St.init else St.init) = res at h hv
+        (pushClip c (inst.clip gid) St.init) = res at h hv
       split at h
       · cases h; omega
       · cases h
-        split <;> (try simp only [emit_visits]) <;> omega
+        simp only [popClipIf_visits]; omega
 
 /-- **Known finding (DESIGN §6-7), exact**: a tree-shaped chain of `d` nested `PaintGlyph` tables over
 one `PaintSolid` (`1 ≤ d ≤ 63`, about `6·d` bytes, no sharing, no cycle) paints successfully but
@@ -244,8 +243,8 @@ theorem glyph_chain_visits (c : Client) (d : Nat) (h1 : 1 ≤ d) (h2 : d < MAX_T
   have hres : (glyphChain (j + 1)).resolve 0 = some (.glyph 0 (0 + 1)) := chain_resolve_inner _ _ (by omega)
   unfold paintV1
   have hb : (glyphChain (j + 1)).base 0 = .found 0 := rfl
-  have hclip : (glyphChain (j + 1)).hasClip 0 = false := rfl
-  simp only [hb, enter_nil, hres, hclip, Bool.false_eq_true, if_false]
+  have hclip : (glyphChain (j + 1)).clip 0 = none := rfl
+  simp only [hb, enter_nil, hres, hclip, pushClip, popClipIf]
   generalize trav (glyphChain (j + 1)) c MAX_TRAVERSAL_DEPTH (.glyph 0 (0 + 1)) [0] St.init = r at hs
   obtain ⟨ha, hv, _⟩ := hs
   simp only [ha]
@@ -277,10 +276,10 @@ example : Walk (Instance.ofTables [(10, .colrGlyph 2), (20, .colrGlyph 1)] [] [(
 
 /-- transform chain: paint `i < len` is a transform of paint `i+1`, paint `len` is a solid -/
 private def transformChain (len : Nat) : Instance where
-  resolve := fun i => if i < len then some (.transform (i + 1)) else if i = len then some (.leaf true) else none
+  resolve := fun i => if i < len then some (.transform i (i + 1)) else if i = len then some (.leaf (some [])) else none
   layer := fun _ => none
   base := fun g => if g = 1 then .found 0 else .notFound
-  hasClip := fun _ => false
+  clip := fun _ => none
 
 /-- 64 nested paints (63 edges) still paint … -/
 example : (paintV1 (transformChain 63) unimpl 1).map (fun r => (r.1, r.2.evs.length, r.2.visits))
@@ -292,35 +291,35 @@ example : (paintV1 (transformChain 64) unimpl 1).map (fun r => (r.1, r.2.visits)
 /-- a layered glyph with a clip box: both layers are optimised into `fill_glyph` (the second with a
 brush transform), inside the clip box push/pop -/
 example : outcome (paintV1 (Instance.ofTables
-      [(10, .colrLayers 0 2), (20, .glyph 5 21), (21, .leaf true), (30, .glyph 6 31), (31, .transform 32),
-       (32, .leaf true)]
-      [(0, some 20), (1, some 30)] [(1, some 10)] [1]) unimpl 1)
-    = some (none, [.pushClipBox, .fillGlyph 5 false, .fillGlyph 6 true, .popClip]) := by decide
+      [(10, .colrLayers 0 2), (20, .glyph 5 21), (21, .leaf (some [])), (30, .glyph 6 31), (31, .transform 31 32),
+       (32, .leaf (some []))]
+      [(0, some 20), (1, some 30)] [(1, some 10)] [(1, [0, 0, 9, 9])]) unimpl 1)
+    = some (none, [.pushClipBox [0, 0, 9, 9], .fillGlyph 5 none [], .fillGlyph 6 (some [31]) [], .popClip]) := by decide
 
 /-- the same glyph for a client relying on the default `fill_glyph` -/
 example : outcome (paintV1 (Instance.ofTables
-      [(10, .colrLayers 0 2), (20, .glyph 5 21), (21, .leaf true), (30, .glyph 6 31), (31, .transform 32),
-       (32, .leaf true)]
-      [(0, some 20), (1, some 30)] [(1, some 10)] [1]) defaultFg 1)
-    = some (none, [.pushClipBox, .pushClipGlyph 5, .fill, .popClip,
-                   .pushClipGlyph 6, .pushT, .fill, .popT, .popClip, .popClip]) := by decide
+      [(10, .colrLayers 0 2), (20, .glyph 5 21), (21, .leaf (some [])), (30, .glyph 6 31), (31, .transform 31 32),
+       (32, .leaf (some []))]
+      [(0, some 20), (1, some 30)] [(1, some 10)] [(1, [0, 0, 9, 9])]) defaultFg 1)
+    = some (none, [.pushClipBox [0, 0, 9, 9], .pushClipGlyph 5, .fill [], .popClip,
+                   .pushClipGlyph 6, .pushT [31], .fill [], .popT, .popClip, .popClip]) := by decide
 
 /-- failed optimisation after a first successful `fill`: `PaintGlyph(ColrLayers[solid, composite])`.
 The first (collecting) pass already sent `fill_glyph` to the client before giving up, then the
 un-optimised pass paints the solid again — balanced, but the first layer is painted twice. -/
 example : outcome (paintV1 (Instance.ofTables
-      [(10, .glyph 5 11), (11, .colrLayers 0 2), (20, .leaf true), (30, .composite 31 12 32),
-       (31, .leaf true), (32, .leaf true)]
+      [(10, .glyph 5 11), (11, .colrLayers 0 2), (20, .leaf (some [])), (30, .composite 31 12 32),
+       (31, .leaf (some [])), (32, .leaf (some []))]
       [(0, some 20), (1, some 30)] [(1, some 10)] []) unimpl 1)
-    = some (none, [.fillGlyph 5 false, .pushClipGlyph 5, .fill, .pushLayer 3, .fill, .pushLayer 12, .fill,
+    = some (none, [.fillGlyph 5 none [], .pushClipGlyph 5, .fill [], .pushLayer 3, .fill [], .pushLayer 12, .fill [],
                    .popLayer 12, .popLayer 3, .popClip]) := by decide
 
 /-- glyph chain of depth 5: 47 = 3·2^4 − 1 visits for 6 paint tables -/
 example : (paintV1 (glyphChain 5) unimpl 0).map (fun r => (r.1, r.2.visits)) = some (none, 47) := by decide
 
 /-- `paint_cached_color_glyph = Ok`: the sub-glyph is not traversed, the stream stays balanced -/
-example : outcome (paintV1 (Instance.ofTables [(10, .transform 11), (11, .colrGlyph 2), (20, .leaf true)] []
-    [(1, some 10), (2, some 20)] [2]) (Client.ofModes 1 1) 1)
-    = some (none, [.pushT, .cached 2, .popT]) := by decide
+example : outcome (paintV1 (Instance.ofTables [(10, .transform 10 11), (11, .colrGlyph 2), (20, .leaf (some []))] []
+    [(1, some 10), (2, some 20)] [(2, [0, 0, 1, 1])]) (Client.ofModes 1 1) 1)
+    = some (none, [.pushT [10], .cached 2, .popT]) := by decide
 
 end FontVerif.C13
